@@ -381,3 +381,96 @@ pub fn bulk_facts(n: u32, mult: u32, recs: u32) -> Facts {
     }
     f
 }
+
+/// Facts with many records: N_gene = `ng`, N_omim = `no`, N_orpha = `nr` (each up to the documented
+/// limit 65 535) on seven terms: a chain 1 <- 118 <- 10 <- 11 <- 12, a side branch 118 <- 20 with
+/// 12 below it as well, and a modifier root 5. Records are spread over the terms by residue; every
+/// 11th record has no term, every 7th has two.
+pub fn large_record_facts(ng: u32, no: u32, nr: u32) -> Facts {
+    let mut f = Facts::default();
+    f.version = (2024, 1, 1);
+    for (id, name) in [(1u32, "All"), (118, "Phenotypic abnormality"), (10, "a"), (11, "b"), (12, "c"), (20, "d"), (5, "Mode of inheritance")] {
+        f.terms.push(TermFact { id, name: name.into(), obsolete: false, replacement: None });
+    }
+    f.edges = vec![(118, 1), (5, 1), (10, 118), (11, 10), (12, 11), (20, 118), (12, 20)];
+    let spots = [12u32, 11, 10, 20, 118, 12, 20, 11];
+    for (k, n) in [(GENE, ng), (OMIM, no), (ORPHA, nr)] {
+        for r in 0..n {
+            let rid = r + 1;
+            let mut terms = vec![];
+            if r % 11 != 10 {
+                terms.push(spots[(r as usize + k) % spots.len()]);
+                if r % 7 == 0 {
+                    terms.push(spots[(r as usize / 7 + 3) % spots.len()]);
+                }
+            }
+            terms.sort_unstable();
+            terms.dedup();
+            for t in &terms {
+                f.ann_calls.push(AnnCall { kind: k as u8, rec: rid, term: Some(*t), alt_name: None });
+            }
+            if terms.is_empty() {
+                f.ann_calls.push(AnnCall { kind: k as u8, rec: rid, term: None, alt_name: None });
+            }
+            f.recs[k].push(RecFact { id: rid, name: format!("r{rid}"), terms });
+        }
+    }
+    f
+}
+
+/// Facts of a deep ontology: an is_a chain of `depth` links below HP:0000118 (node k of the chain
+/// has the parent k-1; every 37th node additionally has its grandparent as a redundant direct
+/// parent and every 50th carries a side leaf), plus a modifier root. Ids are scattered, terms are
+/// supplied deepest first. `recs` records of each kind sit on nodes spread over the whole depth,
+/// some on the deepest node.
+pub fn deep_facts(depth: u32, mult: u32, recs: u32) -> Facts {
+    deep_chain_facts(depth, mult, recs, 37)
+}
+
+/// `deep_facts` with a redundant grandparent link on every `shortcut_every`-th node (0: none; the
+/// library's distance search enumerates all upward routes, so checks that call it use plain chains).
+pub fn deep_chain_facts(depth: u32, mult: u32, recs: u32, shortcut_every: u32) -> Facts {
+    const M: u64 = 9_999_991;
+    let id_of = |k: u32| -> u32 {
+        match k {
+            0 => 1,
+            1 => 118,
+            _ => {
+                let mut id = ((u64::from(k) * u64::from(mult)) % M) as u32 + 2;
+                if id == 118 {
+                    id = 9_999_998;
+                }
+                id
+            }
+        }
+    };
+    let mut f = Facts::default();
+    f.version = (2023, 12, 31);
+    let side = |k: u32| id_of(depth + 10 + k);
+    for k in (0..=depth + 1).rev() {
+        f.terms.push(TermFact { id: id_of(k), name: format!("d{k}"), obsolete: false, replacement: None });
+        if k >= 1 {
+            f.edges.push((id_of(k), id_of(k - 1)));
+        }
+        if k >= 3 && shortcut_every > 0 && k % shortcut_every == 0 {
+            f.edges.push((id_of(k), id_of(k - 2)));
+        }
+        if k >= 2 && k % 50 == 0 {
+            f.terms.push(TermFact { id: side(k), name: format!("s{k}"), obsolete: false, replacement: None });
+            f.edges.push((side(k), id_of(k)));
+        }
+    }
+    // a modifier root with one child
+    f.terms.push(TermFact { id: side(1), name: "modifier".into(), obsolete: false, replacement: None });
+    f.edges.push((side(1), 1));
+    for kind in 0..3u32 {
+        for r in 1..=recs {
+            // the first record of each kind sits on the deepest node, the others every depth/recs levels
+            let k = if r == 1 { depth + 1 } else { 2 + ((r + kind) * (depth / recs.max(1)).max(1)) % depth };
+            let t = id_of(k);
+            f.ann_calls.push(AnnCall { kind: kind as u8, rec: r, term: Some(t), alt_name: None });
+            f.recs[kind as usize].push(RecFact { id: r, name: format!("r{kind}_{r}"), terms: vec![t] });
+        }
+    }
+    f
+}
